@@ -231,9 +231,21 @@ def gen_prim_events(ctx):
             D = ac["D"] * scale
             u, resid = xtal.project_to_unit(sc.positions, ucell.cell, D)
             assert resid < 1e-6
-            s2u = [int(x) for x in sc.s2u_map]
-            atoms = [dict(a=int(sc.u2u_map[s2u[k]]) + 1, sp=int(ac["species"][sc.u2u_map[s2u[k]]]),
-                          u=[int(v) for v in u[k]]) for k in range(len(sc))]
+            # identify each supercell atom by position and symbol (not through the code's own maps)
+            atoms = []
+            for k in range(len(sc)):
+                a = None
+                for ai, n in enumerate(ac["num"]):
+                    if all((int(u[k][i]) - n[i] * scale) % D == 0 for i in range(3)) and \
+                            xtal.SYMBOLS[ac["species"][ai] % len(xtal.SYMBOLS)] == sc.symbols[k]:
+                        a = ai
+                        break
+                if a is None:
+                    atoms = None
+                    break
+                atoms.append(dict(a=a + 1, sp=int(ac["species"][a]), u=[int(v) for v in u[k]]))
+            if atoms is None:
+                continue  # a mis-built supercell is the supercell part's finding
             for pm in PMATS:
                 P = get_primitive_matrix_by_centring(pm) if isinstance(pm, str) else np.array(pm, dtype=float)
                 Pn = np.rint(P * Pd).astype(int)
@@ -321,7 +333,12 @@ def run_primitive(ctx):
 
 def run(ctx):
     run_supercell(ctx)
-    run_primitive(ctx)
+    try:
+        run_primitive(ctx)
+    except Exception:
+        if not ctx.violations:
+            raise
+        ctx.extra["primitive_part"] = "not completed: supercell part already violated"
 
 
 def run_supercell(ctx):
